@@ -43,7 +43,7 @@ def streams(ctx):
     return [("modules", ctx.scale(160, 3000)), ("hand", len(HAND)), ("header_comments", ctx.scale(24, 300)),
             ("big_modules", ctx.scale(8, 100)), ("prose_types", ctx.scale(24, 300)),
             ("quote_prose", ctx.scale(32, 400)), ("repo_files", len(corpus.py_files(max_bytes=ctx.scale(4000, 12000)))),
-            ("line_ends", ctx.scale(48, 600))]
+            ("line_ends", ctx.scale(60, 600))]
 
 
 HAND = [
@@ -175,10 +175,13 @@ def run_line_ends(ctx, P, stream, idx):
     """the same modules as files are found in the wild: CRLF line ends, no newline at the end, a byte-order mark, tabs for
     indentation - read and written back byte for byte (`newline=""`), so that a translated line end is seen"""
     r = ctx.rng(stream, idx)
-    variant = ("crlf", "nonl", "bom", "tabs")[idx % 4]
+    variant = ("crlf", "nonl", "bom", "tabs", "c_locale")[idx % 5]
     src0 = progen.gen_module(r, n_items=r.randint(1, 3), prelude=False)
     src = {"crlf": src0.replace("\n", "\r\n"), "nonl": src0.rstrip("\n"), "bom": "\ufeff" + src0,
-           "tabs": src0.replace("    ", "\t")}[variant]
+           "tabs": src0.replace("    ", "\t"),
+           # a non-ASCII character somewhere, converted by a process whose preferred encoding is ASCII (LC_ALL=C, UTF-8
+           # mode off): the command may fail to read or to write the file - it must not leave it changed
+           "c_locale": src0 + r.choice(('\nGREETING = "caf\u00e9"\n', "\n# na\u00efve\n", "\n\u03bb_rate = 0.5\n"))}[variant]
     try:
         compile(src.lstrip("\ufeff"), "<generated>", "exec")
     except SyntaxError:
@@ -188,15 +191,25 @@ def run_line_ends(ctx, P, stream, idx):
     try:
         path = os.path.join(d, "mod.py")
         cfg = {"style": r.choice(STYLES), "ta": r.random() < 0.5, "wrap": True, "via": "api"}
-        with open(path, "w", newline="") as f:
+        with open(path, "w", newline="", encoding="utf-8") as f:
             f.write(src)
         P.case({"module": src, "cfg": cfg}, klass="line_ends/%s" % variant, sample={"variant": variant, "config": cfg,
                                                                                   "module_head": src[:200]})
         snap0 = fsnap.snapshot(d)
-        outcome, val, _ = run_api(path, cfg)
-        if outcome == "raised":
-            outcome = "raised:" + type(val).__name__
-        with open(path, newline="") as f:
+        if variant == "c_locale":
+            env = dict(os.environ, PYTHONPATH=REPO, PYTHONDONTWRITEBYTECODE="1", LC_ALL="C", LANG="C", PYTHONUTF8="0",
+                       PYTHONCOERCECLOCALE="0")
+            env.pop("PYTHONIOENCODING", None)
+            pr = subprocess.run([sys.executable, "-m", "cdd", "doctrans", "--filename", path, "--format", cfg["style"],
+                                 "--type-annotations" if cfg["ta"] else "--no-type-annotations"], env=env, cwd=d,
+                                stdout=subprocess.PIPE, stderr=subprocess.PIPE, timeout=300)
+            outcome = "returned" if pr.returncode == 0 else "raised:exit-%d" % pr.returncode
+            P.count("line_ends.c_locale.%s" % ("returned" if pr.returncode == 0 else "failed"))
+        else:
+            outcome, val, _ = run_api(path, cfg)
+            if outcome == "raised":
+                outcome = "raised:" + type(val).__name__
+        with open(path, newline="", encoding="utf-8") as f:
             after = f.read()
         P.monitor("line-ends.observed")
         judge(P, {"stream": stream, "idx": idx, "variant": variant}, src, after, outcome, cfg,
